@@ -96,7 +96,26 @@ func runCase(r *rand.Rand, f func(rr *rand.Rand)) {
 	runSeeded(seed, f)
 }
 
+// Three-strikes breaker: once a family of scenarios (gen / e2e / soak / wire) has had a scenario
+// hang twice in a row, or three scenarios hit the watchdog, the rest of the family is emitted as
+// NOT-RUN, so that a systematically blocking tree is reported within about a minute.
+var family string
+var strikes = map[string]int{}
+var tripped = map[string]bool{}
+var systematic bool
+
 func runSeeded(seed int64, f func(rr *rand.Rand)) {
+	fam := family
+	if tripped[fam] {
+		emit(fam, "-", "NOT-RUN", "not-run")
+		return
+	}
+	defer func() {
+		if strikes[fam] >= 3 && !tripped[fam] {
+			tripped[fam] = true
+			fmt.Fprintf(os.Stderr, "=== BREAKER family %s: watchdog hit %d times, remaining scenarios not run\n", fam, strikes[fam])
+		}
+	}()
 	var a caseOut
 	lastHangSig = ""
 	capture = &a
@@ -114,6 +133,14 @@ func runSeeded(seed int64, f func(rr *rand.Rand)) {
 		return
 	}
 	sig1 := lastHangSig
+	strikes[fam]++
+	if systematic {
+		// another scenario has already blocked twice on its own in this run: no second 30 s
+		a.res += " [not re-run: a scenario already blocked twice in this run; blocked: " + sig1 + "]"
+		tag(a, ",hang-noretry")
+		strikes[fam] = 3
+		return
+	}
 	fmt.Fprintf(os.Stderr, "=== RETRY %s seed=%x after %s\n", a.op, seed, a.res[:min(len(a.res), 120)])
 	time.Sleep(200 * time.Millisecond)
 	var b caseOut
@@ -124,6 +151,8 @@ func runSeeded(seed int64, f func(rr *rand.Rand)) {
 	if strings.Contains(b.res, "HANG") {
 		b.res += " [twice; blocked: " + sig1 + " / " + lastHangSig + "]"
 		tag(b, ",hang-twice")
+		strikes[fam] = 3 // the same scenario blocked again on its own: systematic
+		systematic = true
 		return
 	}
 	tag(b, ",hang-once-under-load")
@@ -161,6 +190,7 @@ func stateStr(st kafka.VerifGenState, ret bool) string {
 }
 
 func runGenCase(r *rand.Rand) {
+	family = "gen"
 	runCase(r, genCase)
 }
 
@@ -647,30 +677,96 @@ func (d *driver) serveRun() {
 		c.reply <- reply{join: ja}
 		d.held = m
 		d.cHeld, d.cLeaveSeen = ja.MemberID, false
+		leaderLab := ""
+		reads := 0
 		if ld == "l" && lfail == "" {
-			rp := d.await("readparts", nil)
-			switch x := d.r.Intn(8); {
-			case x == 0:
-				lfail = []string{"rb", "ka", "dr"}[d.r.Intn(3)]
-				code, err := errFor(lfail, d.r)
-				d.feats["leader-readparts-"+lfail] = true
+			// assignTopicPartitions: one readPartitions for all topics; when that answers
+			// UnknownTopicOrPartition and there are >= 2 topics, one readPartitions per topic
+			// (unknown topics skipped, any other error returned).  The coordinator answers
+			// consistently with its cluster: which topics exist is drawn per join.
+			nt := len(d.topics)
+			missing := make([]bool, nt)
+			anyMissing := false
+			if d.r.Intn(3) == 0 {
+				for i := range missing {
+					if d.r.Intn(2) == 0 {
+						missing[i], anyMissing = true, true
+					}
+				}
+			}
+			first := "ok"
+			rp := d.await("readparts", func(x *call) bool { return len(x.topics) == nt })
+			reads = 1
+			switch {
+			case d.r.Intn(8) == 0:
+				first = []string{"rb", "ka", "dr"}[d.r.Intn(3)]
+				lfail = first
+				code, err := errFor(first, d.r)
+				d.feats["leader-readparts-"+first] = true
 				rp.reply <- reply{code: code, err: err}
-			case x == 1:
+			case anyMissing:
+				first = "un"
 				d.feats["leader-unknown-topic"] = true
 				rp.reply <- reply{code: 3}
 			default:
 				d.feats["leader"] = true
-				rp.reply <- reply{parts: d.parts(3)}
+				var ps []kafka.Partition
+				for _, t := range d.topics {
+					ps = append(ps, partsOf(t, 3)...)
+				}
+				rp.reply <- reply{parts: ps}
 			}
+			var per []string
+			if first == "un" && nt >= 2 {
+				d.feats["leader-per-topic-reads"] = true
+				for i, t := range d.topics {
+					t := t
+					rp := d.await("readparts", func(x *call) bool { return len(x.topics) == 1 && x.topics[0] == t })
+					reads++
+					if d.r.Intn(10) == 0 {
+						e := []string{"rb", "ka", "dr"}[d.r.Intn(3)]
+						code, err := errFor(e, d.r)
+						d.feats["leader-per-topic-"+e] = true
+						per = append(per, e)
+						lfail = e
+						rp.reply <- reply{code: code, err: err}
+						break
+					}
+					if missing[i] {
+						per = append(per, "un")
+						rp.reply <- reply{code: 3}
+					} else {
+						per = append(per, "ok")
+						rp.reply <- reply{parts: partsOf(t, 3)}
+					}
+				}
+			}
+			ps := "-"
+			if len(per) > 0 {
+				ps = strings.Join(per, ".")
+			}
+			leaderLab = "Jo:" + hx(m) + ":L:" + hx(nt) + ":" + first + ":" + ps
 		}
-		d.ob("j" + seen)
+		if reads > 0 {
+			d.ob("j" + seen + "r" + hx(reads))
+		} else {
+			d.ob("j" + seen)
+		}
 		if lfail != "" {
-			d.lab("Jo:" + hx(m) + ":f" + lfail)
+			if leaderLab != "" {
+				d.lab(leaderLab)
+			} else {
+				d.lab("Jo:" + hx(m) + ":f" + lfail)
+			}
 			d.noteFail(lfail)
 			d.failNG(lfail)
 			return
 		}
-		d.lab("Jo:" + hx(m) + ":" + ld)
+		if leaderLab != "" {
+			d.lab(leaderLab)
+		} else {
+			d.lab("Jo:" + hx(m) + ":" + ld)
+		}
 		d.pc = "sync"
 	case "sync":
 		c := d.await("sync", nil)
@@ -763,6 +859,14 @@ func (d *driver) parts(n int) []kafka.Partition {
 	var ps []kafka.Partition
 	for i := 0; i < n; i++ {
 		ps = append(ps, kafka.Partition{Topic: d.topics[0], ID: i})
+	}
+	return ps
+}
+
+func partsOf(topic string, n int) []kafka.Partition {
+	var ps []kafka.Partition
+	for i := 0; i < n; i++ {
+		ps = append(ps, kafka.Partition{Topic: topic, ID: i})
 	}
 	return ps
 }
@@ -1309,6 +1413,7 @@ func (d *driver) leaveFull() string {
 }
 
 func runE2E(r *rand.Rand, forced string) {
+	family = "e2e"
 	runCase(r, func(rr *rand.Rand) { e2eCase(rr, forced) })
 }
 
@@ -1586,6 +1691,7 @@ func main() {
 		var cs int64
 		fmt.Sscanf(*caseSeed, "%x", &cs)
 		for i := 0; i < *reps; i++ {
+			family = *only
 			switch *only {
 			case "gen":
 				runSeeded(cs, genCase)
